@@ -23,9 +23,9 @@ def EndPoll (cd : Codec α) (cfg : DecCfg) (s : DecSt) (evs : List BodyEv) (ms :
     (s' : DecSt) (evs' : List BodyEv) (o : Item α) : Prop :=
   match o with
   | .msg m => ∃ ms', ms = m :: ms' ∧ PhaseOk cfg s' ∧ CleanEvs evs' = true ∧
-      specFrom cd cfg s' (dataOf evs') = (ms', .clean) ∧
+      specFrom cd cfg s' (accepted cfg evs') = (ms', .clean) ∧
       endTr s'.trailers evs' = endTr s.trailers evs ∧ evs'.length ≤ evs.length
-  | .pending => PhaseOk cfg s' ∧ CleanEvs evs' = true ∧ specFrom cd cfg s' (dataOf evs') = (ms, .clean) ∧
+  | .pending => PhaseOk cfg s' ∧ CleanEvs evs' = true ∧ specFrom cd cfg s' (accepted cfg evs') = (ms, .clean) ∧
       endTr s'.trailers evs' = endTr s.trailers evs ∧ evs'.length < evs.length
   | .none => ms = [] ∧ respTr cfg (endTr s.trailers evs) = none ∧ s'.trailers = endTr s.trailers evs
   | .err e => ms = [] ∧ respTr cfg (endTr s.trailers evs) = some e
@@ -49,7 +49,7 @@ theorem clean_ms_nil (cd : Codec α) (cfg : DecCfg) (s' : DecSt) (ms : List α)
   · rw [h] at hx; exact absurd (Prod.mk.inj hx).2 (by simp)
 
 theorem pollNext_end (cd : Codec α) (cfg : DecCfg) (evs : List BodyEv) : ∀ (s : DecSt) (ms : List α),
-    PhaseOk cfg s → CleanEvs evs = true → specFrom cd cfg s (dataOf evs) = (ms, .clean) →
+    PhaseOk cfg s → CleanEvs evs = true → specFrom cd cfg s (accepted cfg evs) = (ms, .clean) →
     EndPoll cd cfg s evs ms (Dec.pollNext cd cfg s evs).1 (Dec.pollNext cd cfg s evs).2.1
       (Dec.pollNext cd cfg s evs).2.2 := by
   induction evs with
@@ -74,7 +74,7 @@ theorem pollNext_end (cd : Codec α) (cfg : DecCfg) (evs : List BodyEv) : ∀ (s
     | need s' =>
       obtain ⟨hok, htr, hX, hst⟩ := hp
       dsimp only
-      have hx' : specFrom cd cfg s' [] = (ms, .clean) := by rw [← hX]; simpa [dataOf] using hx
+      have hx' : specFrom cd cfg s' [] = (ms, .clean) := by rw [← hX]; simpa [accepted] using hx
       obtain ⟨hms, hbuf⟩ := clean_ms_nil cd cfg s' ms hx' hst
       simp only [hbuf, ↓reduceIte]
       exact finish_end cd cfg s [] ms s' [] hms (by simp [endTr, htr])
@@ -102,14 +102,14 @@ theorem pollNext_end (cd : Codec α) (cfg : DecCfg) (evs : List BodyEv) : ∀ (s
       cases ev with
       | pending =>
         refine ⟨hok, by simpa [CleanEvs] using hc, ?_, by simp [endTr, htr], by simp⟩
-        rw [← hX]; simpa [dataOf] using hx
+        rw [← hX]; simpa [accepted] using hx
       | data c =>
-        have hok' : PhaseOk cfg ⟨s'.buf ++ c, s'.ph, s'.trailers⟩ := by simpa [PhaseOk] using hok
-        have hx' : specFrom cd cfg ⟨s'.buf ++ c, s'.ph, s'.trailers⟩ (dataOf rest) = (ms, .clean) := by
-          have := specFrom_push cd cfg s' c (dataOf rest)
-          rw [this, ← hX]; simpa [dataOf] using hx
-        have := ih ⟨s'.buf ++ c, s'.ph, s'.trailers⟩ ms hok' (by simpa [CleanEvs] using hc) hx'
-        rcases hr : Dec.pollNext cd cfg ⟨s'.buf ++ c, s'.ph, s'.trailers⟩ rest with ⟨s2, evs2, o⟩
+        have hok' : PhaseOk cfg ⟨s'.buf ++ cfg.accept c, s'.ph, s'.trailers⟩ := by simpa [PhaseOk] using hok
+        have hx' : specFrom cd cfg ⟨s'.buf ++ cfg.accept c, s'.ph, s'.trailers⟩ (accepted cfg rest) = (ms, .clean) := by
+          have := specFrom_push cd cfg s' (cfg.accept c) (accepted cfg rest)
+          rw [this, ← hX]; simpa [accepted] using hx
+        have := ih ⟨s'.buf ++ cfg.accept c, s'.ph, s'.trailers⟩ ms hok' (by simpa [CleanEvs] using hc) hx'
+        rcases hr : Dec.pollNext cd cfg ⟨s'.buf ++ cfg.accept c, s'.ph, s'.trailers⟩ rest with ⟨s2, evs2, o⟩
         rw [hr] at this
         simp only [hr]
         have htr' : endTr s.trailers (BodyEv.data c :: rest) = endTr s'.trailers rest := by
@@ -133,7 +133,7 @@ theorem pollNext_end (cd : Codec α) (cfg : DecCfg) (evs : List BodyEv) : ∀ (s
           | nil => rfl
           | cons _ _ => simp [CleanEvs] at hc
         subst hrest
-        have hx' : specFrom cd cfg s' [] = (ms, .clean) := by rw [← hX]; simpa [dataOf] using hx
+        have hx' : specFrom cd cfg s' [] = (ms, .clean) := by rw [← hX]; simpa [accepted] using hx
         obtain ⟨hms, _⟩ := clean_ms_nil cd cfg s' ms hx' hst
         exact finish_end cd cfg s _ ms ⟨s'.buf, s'.ph, mergeTr s'.trailers t⟩ [] hms (by simp [endTr, htr])
       | err st => simp [CleanEvs] at hc
@@ -142,7 +142,7 @@ theorem pollNext_end (cd : Codec α) (cfg : DecCfg) (evs : List BodyEv) : ∀ (s
 
 /-- `EndPoll` with the `Pending` case excluded -/
 theorem nextItem_end (cd : Codec α) (cfg : DecCfg) (fuel : Nat) : ∀ (s : DecSt) (evs : List BodyEv) (ms : List α),
-    PhaseOk cfg s → CleanEvs evs = true → specFrom cd cfg s (dataOf evs) = (ms, .clean) →
+    PhaseOk cfg s → CleanEvs evs = true → specFrom cd cfg s (accepted cfg evs) = (ms, .clean) →
     evs.length < fuel →
     (nextItem cd cfg fuel s evs).2.2 ≠ .pending ∧
     EndPoll cd cfg s evs ms (nextItem cd cfg fuel s evs).1 (nextItem cd cfg fuel s evs).2.1
@@ -185,7 +185,7 @@ that many (and the stream is left open); otherwise all of them, then the end of 
 clean, with the body's trailers held by the stream, or the error the trailers carry. -/
 theorem readN_end (cd : Codec α) (cfg : DecCfg) (fuel : Nat) (k : Nat) :
     ∀ (s : DecSt) (evs : List BodyEv) (ms : List α),
-    PhaseOk cfg s → CleanEvs evs = true → specFrom cd cfg s (dataOf evs) = (ms, .clean) →
+    PhaseOk cfg s → CleanEvs evs = true → specFrom cd cfg s (accepted cfg evs) = (ms, .clean) →
     evs.length < fuel →
     (readN cd cfg fuel k s evs).1 = ms.take k ∧
     (readN cd cfg fuel k s evs).2.1 =
